@@ -9,7 +9,8 @@ RULE = ("metamorphic pairs through the real readers: dataset A has a set K of ca
         "K DELETED; for every metric that uses that field (all ~70 metrics: deterministic, 25 categorical, Brier family, "
         "quantile, PIT) the csv of A must equal the csv of B row by row, rows that exist only in A (a slice with no valid "
         "case, incl. K = a whole lead time or a whole input) must be NaN, and nothing may crash. -C with zero climatology and "
-        "-c with missing climatology are handled the same way. Plus a record-mode post-condition on Data.get_scores "
+        "-c with missing climatology are handled the same way. Ensemble members marked missing: the event probability taken "
+        "from the ensemble must be the fraction of the PRESENT members (reference model). Plus a record-mode post-condition on Data.get_scores "
         "(no NaN/inf in a non-empty result) under an ambient CLI workload. signature = (encoding, field, metric, "
         "scattered|slice|whole-input); non-trivial = at least one marked case would change the score if read as a number.")
 ASSUMPTIONS = ["a text value above 1e30 and the token 'inf' are outside the documented encodings and not generated",
@@ -49,9 +50,10 @@ def metric_table(thr, dthr, q0, q1):
 
 
 def plan(tier, seed):
-    n = 5 if tier == "quick" else 120
+    n = 8 if tier == "quick" else 120
     shards = [{"part": "pairs", "seed": seed, "k": k, "n": n} for k in range(14)]
     shards += [{"part": "ambient", "seed": seed, "k": k, "n": 120 if tier == "quick" else 1500} for k in range(2)]
+    shards += [{"part": "members", "seed": seed, "k": k, "n": 6 if tier == "quick" else 120} for k in range(4)]
     return shards
 
 
@@ -252,7 +254,72 @@ def run_pairs(desc, ctx):
                         ctx.violation("clim-number-from-no-valid-case|%s" % ctype, "row %s = %s" % (key, vals), {"ds": dsc, "ctype": ctype})
 
 
+def run_members(desc, ctx):
+    """Missing ensemble members: the probability of an event not stored in the file is the fraction of the PRESENT
+    members at or below the threshold; a missing member (any encoding) must not be counted as a number."""
+    from vmon import refmetrics
+    rng = random.Random("C04-mem-%s-%s" % (desc["seed"], desc["k"]))
+    for ci in range(desc["n"]):
+        F = rng.choice([1, 2])
+        M = rng.randint(2, 6)
+        ds = gen.make_dataset(rng, n_inputs=F, ens=True, members=M, miss=0.0, sparse=0.0, same_dims=True, max_t=4, max_l=3, max_s=3,
+                              vrange=(0, 12), integerish=rng.random() < 0.5)
+        marked = 0
+        for inp in ds["inputs"]:
+            for c in inp["cells"].values():
+                r = rng.random()
+                if r < 0.35:
+                    for j in rng.sample(range(M), rng.randint(1, M - 1)):
+                        c["e"][j] = None
+                        marked += 1
+                elif r < 0.45:
+                    c["e"] = [None] * M
+        d = os.path.join(ctx.workdir, "m%d" % ci)
+        os.makedirs(d)
+        enc_rng = random.Random(rng.random())
+        paths = [gen.write_input(i, d, enc_rng) for i in ds["inputs"]]
+        encs = "+".join("+".join(i["style"].get("tokens", i["style"].get("enc", ["?"]))) for i in ds["inputs"])
+        t = rng.choice([2.0, 5.0, 6.5, 9.0])
+        case = {"ds": ds, "threshold": t}
+        for axis in ("no", "leadtime"):
+            for metric in ("threshold", "bs"):
+                o = runner.run_cli(paths + ["-m", metric, "-r", gen.fnum(t), "-b", "below=", "-x", axis, "-type", "csv"])
+                ctx.count("pairs")
+                ctx.case("%s|e|%s|partial-members" % (encs, metric), marked > 0, {"metric": metric, "threshold": t, "members": M,
+                                                                                    "marked_members": marked, "encodings": encs})
+                if o.status == "crash":
+                    ctx.violation("crash-on-missing|%s@%s" % (o.exc_type, o.where), o.tb, case)
+                    continue
+                if o.status != "ok":
+                    continue
+                h, rows = runner.parse_csv(o.stdout)
+                nd = len(h) - F
+                for k in range(F):
+                    fields = [("thr", t)] if metric == "threshold" else [("obs",), ("thr", t)]
+                    sl = refmodel.slices(ds, k, fields, axis)
+                    for i, (lab, cs) in enumerate(sl):
+                        ctx.count("rows_compared")
+                        if i >= len(rows):
+                            break
+                        if not cs:
+                            ctx.count("allmissing_rows")
+                            if rows[i][nd + k].lower() != "nan":
+                                ctx.violation("number-from-no-valid-case|%s" % metric, "row %d = %s without a valid case" % (i, rows[i][nd + k]), case)
+                            continue
+                        if metric == "threshold":
+                            want = refmetrics.mean([c[0] for c in cs])
+                        else:
+                            want = refmetrics.mean([(c[1] - (1.0 if c[0] <= t else 0.0)) ** 2 for c in cs])
+                        if not same_number(rows[i][nd + k], "%g" % want):
+                            ctx.violation("missing-member-counted|%s" % metric,
+                                          "-m %s -r %s -x %s row %d input %d: csv %s, fraction of PRESENT members gives %g (%d member values marked missing: %s)"
+                                          % (metric, t, axis, i, k, rows[i][nd + k], want, marked, encs), case)
+        ctx.count("would_change", 1 if marked else 0)
+
+
 def run_shard(desc, ctx):
+    if desc["part"] == "members":
+        return run_members(desc, ctx)
     if desc["part"] == "pairs":
         run_pairs(desc, ctx)
     else:
